@@ -24,7 +24,19 @@ RULE = ("logical documents of the shared subset (strings, ints, yes/no, n/8 floa
         "`any` targets on string-only documents -- each at 7 document positions, through text slice / tape / ObjectReader / TokenReader / "
         "from_*_reader / TextDeserializer::from_*_slice / from_encoded_tape and binary builder tape / slice / reader, BinaryFlavor::deserialize_slice / "
         "deserialize_reader and the deserializer-returning builder methods; oracle: the value computed from the abstract document for each format, "
-        "equality of the two where the property promises it; the same cases against the extracted walks (kinds_walk_text / kinds_walk_bin)")
+        "equality of the two where the property promises it; the same cases against the extracted walks (kinds_walk_text / kinds_walk_bin).  "
+        # [s_c10]
+        "sizes (props/C10_sizes.py, audit/C10.md `Size dimensions`): one size-like dimension at a time over the ladder 0 1 2 3 7 8 9 15 16 17 31 32 33 "
+        "63 64 65 127 128 129 255 256 257 1023 1024 1025 4095 4096 4097 65533 65534 65535 65536 on an otherwise small document: string, key, resolved-name "
+        "and enum-name lengths up to the binary u16 limit in both renderings (beyond it: text only), a backslash / quote / non-ASCII character at every "
+        "place of the decoders' 8-byte blocks, the default 32 KiB buffer of the stream entry points; counts of array elements, map entries, duplicates "
+        "of one key and unknown fields (to 65536), struct fields / Option fields / tuple elements / enum variants / colours (to 1025), consecutive ghost "
+        "`{}` (to 4097, in front / between / after the fields, nested); nesting depth of structs / maps / arrays / Option captured (to 1025) and of skipped "
+        "containers (to 70000); every integer width boundary inside arrays / maps / repeated fields, powers of ten, zero-padded numerals (to 65536 zeros), "
+        "1..24 fraction digits; Date / DateHour over the ladder of years -5000..32767 and inside containers; rgb channel counts; every non-lexeme token id "
+        "0x0000..0xffff as a key and as a value; gap / comment lengths of the text layout and offset x length pairs around the lexer's 8 / 16-byte blocks.  "
+        "Oracle: the value by construction (dedoc.expected on the abstract document, or spelled out next to the bytes), equality of the two renderings "
+        "wherever the binary format can express the document; the cases up to a few hundred bytes also against the extracted walks (sizes_walk_*)")
 TRUSTED = ["serde's primitive visitors; the flavor arithmetic is recomputed exactly in Python",
            "Date::from_binary / Date::parse agreement is C13 (proved there); here it is exercised through both deserializers",
            # [spec_tie]
@@ -137,6 +149,13 @@ def run(ctx):
     C10_ext.run(ctx)
     # <<< w_c10
 
+    # >>> s_c10 (wave 6): size / boundary ladders -- one size-like dimension at a time up the ladder 0 1 2 3 7 8 9 .. 65535 65536
+    # (string / key / name lengths, element / field / duplicate / ghost counts, nesting depth captured and skipped, digits,
+    # years, token ids, gap lengths), expectations by construction (props/C10_sizes.py; audit/C10.md "Size dimensions")
+    from props import C10_sizes
+    C10_sizes.run(ctx)
+    # <<< s_c10
+
     # scalar level of both formats against the extracted Serde model
     from props import descalar
     ctx.correspond("scalar-both", descalar.text_cases(ctx, ctx.scale(100, 1000)) + descalar.bin_cases(ctx, ctx.scale(60, 600)), nontrivial=nt)
@@ -215,5 +234,6 @@ CLAIM = {
     "note": "[spec_tie] LogicDoc.to_text / to_bin and both specifications are extracted and run on the generated documents (renderings byte for byte against props/dedoc.py, TextDeSpec.spec_value = BinDoc.spec_value = dedoc.expected = the implementation's values; stream spec_tie, keys tie-text-* / tie-bin-*); LogicDoc.shared is a Prop and is not run. Props/C10_link.v (LogicDoc.v: logical documents with a text rendering to_text and a binary rendering to_bin under an encoding choice e): (1) per-scalar agreement of the text typed hints and the binary tokens for integers in (i64::MIN, u64::MAX] on all four token widths and every target width (refusals included), yes/no vs BOOL, strings as quoted / unquoted / resolvable id, dates Y.M.D vs I32 (through C13), floats under float_ok; (2) C10_spec_agree: TextDeSpec.spec_value on to_text d = BinDoc.spec_value on to_bin e d for every shared shape and every admissible encoding choice (nested objects, arrays, duplicate keys, Option, unknown fields, Once/Last/Collect, maps, tuples, enums); (3) C10_text_bin_agree_partial: composed with the C02 and C04 walk theorems, the text tape and stream paths and the three binary paths (any fitting capacity, any fault-free schedule) return the same value; (4) C10_link_rgb_typed_agree: a colour captured as (String, Vec<uN>) is read identically by the text tape path and the binary paths for all channel values, C10_link_rgb_any_refuted / C10_link_i64_min_refuted: the two witnesses replayed by the `probes` stream. C10_shared_fits: a shared target fits the text rendering; C10_text_bytes_bin_agree_partial: the same from the text bytes under every layout (through C01_parse_render). Not proved: colours at arbitrary positions of a document (TextDeSpec has no headers), the byte-level lexing of the text STREAM path (C07) is not composed. Props/C10_walk.v: the binary specification is independent of the encoding choices and every binary path on every encoding returns it. Props/C10.v: the old Serde.v-level scalar agreement.",
     "note_wave4": "[a_c10] Props/C10_kinds.v: C10_link_datehour (Y.M.D.H through DateHourVisitor::visit_str = the I32 of DateHour::to_binary through visit_i32 = the same characters as a binary string token: the value (y, m, d, h), all calendar days of -5000..32767, hours 1..24), C10_link_date_both_value, C10_any_encoding_any_path (three admissible encoding choices of one logical document read by the tape / on-demand / stream entry points at their own fuel and the text tape path: one value -- completes C10_bin_any_path_any_encoding_partial for logical documents), C10_any_object_refuted (finding any-object-ondemand: a dynamically typed target on a nested object is a syntax error on the on-demand and stream binary paths).  Stream kinds: see RULE; audit: audit/C10.md",
     "note_wave5": "[w_c10] Props/C10_ext.v over coq/theories/LogicDocX.v (LogicDoc + DateHour values + colours that are READ): C10_ext_spec_agree / _spec_of_agree (TextDeSpec2.spec_value2 tp on the text rendering = BinDoc.spec_of with ColorSequence on any admissible binary rendering, colours captured as (String | ignored, Vec<number> | ignored) at arbitrary object-value positions and DateHour as I32 / string token included), C10_ext_shared_fits, C10_ext_text_bin_agree (text tape path + the three binary paths, both flags), C10_ext_text_bin_agree_stream (tp = false: five paths), C10_ext_bytes_agree / C10_ext_bytes_agree_stream (the same from the BYTES of both renderings: from_*_slice under every layout, from_*_reader under every failure-free schedule and every capacity >= need), C10_ext_embeds / _subsumes_logicdoc / _logicdoc_five_paths (LogicDoc is the XBase fragment), refuted: C10_ext_rgb_in_array_refuted (finding rgb-in-array), C10_ext_rgb_stream_refuted (H-stream-header seen from C10), C10_ext_rgb_string_refuted (by design).  Streams ext_docs / ext-text-vs-binary / ext_probes (props/C10_ext.py): the extracted LogicDocX.to_textx / binx_bytes render the generated documents, spec_value2 true / false and spec_of specify them, the implementation deserializes THOSE bytes on all paths",
+    "note_wave6": "[s_c10] stream sizes (props/C10_sizes.py; audit/C10.md section 9): one size-like dimension at a time over the ladder 0 1 2 3 7 8 9 .. 65535 65536 -- string / key / resolved-name / enum-name lengths to the binary u16 limit in both renderings (beyond: text only), escapes at every place of the decoders' 8-byte blocks, default stream buffers, element / entry / duplicate / unknown-field counts to 65536, fields / tuples / variants / colours to 1025, ghost runs to 4097, captured depth to 1025 and skipped depth to 70000, integer width boundaries inside containers, powers of ten, zero padding, 1..24 fraction digits, 75 years over -5000..32767, every non-lexeme token id as key and value, gap lengths and offsets of the text layout; expectations by construction, small cases also against the extracted walks (sizes_walk_text / sizes_walk_bin); finding ghost-front-root-tape",
     "technique": "machine-checked proof in Coq over an executable model + specification oracle on the implementation",
 }
